@@ -691,7 +691,7 @@ impl<'a, 'b, 'ast> Visit<'ast> for BodyV<'a, 'b> {
             let mode = k2
                 .as_ref()
                 .and_then(|k| self.fc.cfg.eff_path.get(k))
-                .or_else(|| if k2.is_none() { self.fc.extra_eff.get(&k1).or_else(|| self.fc.cfg.eff_path.get(&k1)) } else { self.fc.cfg.eff_path.get(&format!("*::{k1}")) })
+                .or_else(|| if k2.is_none() { self.fc.extra_eff.get(&k1).or_else(|| self.fc.cfg.eff_path.get(&k1)) } else { self.fc.cfg.eff_path.get(&format!("*::{k1}")).or_else(|| self.fc.cfg.eff_path.get(&k1)) })
                 .cloned();
             // nested fn call rename (hoisted inner functions)
             if k2.is_none() {
